@@ -86,7 +86,7 @@ impl Monitor for C08 {
 	}
 	fn n_cases(&self, ctx: &Ctx) -> usize {
 		// (a) seeds x rounds, (b) version cases
-		ctx.tier.pick(14 * 2 + 60, 14 * 20 + 23 + 2000)
+		ctx.tier.pick(14 * 6 + 400, 14 * 60 + 23 + 20000)
 	}
 	fn min_classes(&self, _tier: Tier) -> usize {
 		30
@@ -95,14 +95,14 @@ impl Monitor for C08 {
 		let mut out = CaseOut::default();
 		let mut rng = Rng::derive(ctx.seed, 0xC08 ^ (idx as u64) << 3);
 		let seeds = super::c06::seeds();
-		let na = ctx.tier.pick(14 * 2, 14 * 20 + 23);
+		let na = ctx.tier.pick(14 * 6, 14 * 60 + 23);
 		if idx < na {
-			let (name, bytes, m) = if idx < 14 * ctx.tier.pick(2, 20) {
+			let (name, bytes, m) = if idx < 14 * ctx.tier.pick(6, 60) {
 				let s = &seeds[idx % 12.min(seeds.len())];
 				(s.name.clone(), s.bytes.clone(), s.model.clone())
 			} else {
 				// head of a fixture: keep the first ~60 events, re-assembled with the end kept
-				let (fname, fb) = &self.fixtures[(idx - 14 * 20) % self.fixtures.len()];
+				let (fname, fb) = &self.fixtures[(idx - 14 * 60) % self.fixtures.len()];
 				let Ok(fm) = model::parse(fb) else { return out };
 				let mut p = mutate::split(fb, &fm);
 				if p.events.len() > 80 {
